@@ -442,7 +442,10 @@ def bounded(chk):
                     vals = rng.choice([0, 0, 1, 2, 5], size=n)
                     items.append({"clause": "ova", "matrix": vals.tolist(), "shape": list(shape), "float": fl})
         items.append({"clause": "ova", "matrix": [0] * (N * N), "shape": [N, N], "float": False})
-    chk.bounded["bound"] = "label/prediction sequences of length <= 4 over class lists [0,1], ['x','y','z'], [2,0,1], ['b','a'] (every class order; dict / DataFrame / nested-list forms), unit and positive weights; matrices N=2..4 with cells in {0,1,2,5}, leading shapes (), (3,), (2,2), (0,)"
+        for rep in range(3):
+            items.append({"clause": "ova", "matrix": rng.choice([0.0, 0.25, 0.5, 1.75, 2.5], size=N * N).tolist(), "shape": [N, N], "float": True})
+            items.append({"clause": "ova", "matrix": rng.choice([0.0, 0.125, 0.375, 0.5], size=2 * N * N).tolist(), "shape": [2, N, N], "float": True})
+    chk.bounded["bound"] = "label/prediction sequences of length <= 4 over class lists [0,1], ['x','y','z'], [2,0,1], ['b','a'] (every class order; dict / DataFrame / nested-list forms), unit and positive weights; matrices N=2..4 with cells in {0,1,2,5} and fractional (dyadic) float cells, leading shapes (), (3,), (2,2), (0,)"
     chk.bounded["rule"] = "enumerated sequences (sub-sampled regularly when more than 40 per length), seeded random matrices; each is one case"
     run_bounded(chk, items, eval_items)
     chk.samples.append({"bounded-case": items[17]})
